@@ -2,6 +2,7 @@ import NanoVerif.Props.C06
 import NanoVerif.Props.C01
 import NanoVerif.Props.C02
 import NanoVerif.Proofs.ColrSvg
+import NanoVerif.Proofs.TrColrToSvg
 /-
 C13 — COLR-to-SVG conversion preserves the picture for supported paint graphs (per-step theorems).
 `V` is the font→viewBox map (`map_font_space_to_viewbox`, the inverse of the C01 placement).
